@@ -15,6 +15,31 @@ CLAIMED = {
          "Trusted: TLC, the ctypes/C drivers, ASan/UBSan for memory outside the buffers (guard zones checked explicitly). "
          "Inner coders are abstract (any result); amounts above the model constants are covered by trace validation only.",
          "§4 C11"),
+ "C07": ("TLA+ model of stream_decoder_mt.c/outqueue.c (MtDecoder.tla, one action per critical section) model-checked by TLC "
+         "against a sequential-equivalence contract; executions of the real threaded decoder recorded through guarded hooks "
+         "and validated by the TLA+ trace specification TraceMtDecoder",
+         "TLC explores every interleaving of main thread, 2 workers and an arbitrary application (slicing, output space, early "
+         "lzma_end) for <= 3 Blocks in 16 configurations (valid, corrupt, bad header, bad index, truncated, direct mode, fail-fast, "
+         "timeout, spurious wake-ups, tight memory) and checks output-prefix, terminal equivalence with the sequential decoder, "
+         "no use after free, queue order, no premature BUF_ERROR and (Spurious=FALSE) deadlock freedom / no lost wake-up. The "
+         "model is bound to the code by trace validation of every critical section of real runs under TSan with schedule "
+         "perturbation (each event = one model action with arguments bound) plus byte comparison with lzma_stream_decoder.",
+         "Trusted: TLC, TSan (only executed interleavings), the Lipton-reduction argument that critical sections are atomic "
+         "(lock discipline observed on traces), hooks (add-only, guarded), mt_drv.c. Concatenated Streams, memlimit_stop restart "
+         "and cached-memory eviction are not in the model (C09 covers the limits).",
+         "§4 C07"),
+ "C08": ("TLA+ model of stream_encoder_mt.c/outqueue.c (MtEncoder.tla) model-checked by TLC against an ordering / flush / "
+         "progress / liveness contract; executions of the real threaded encoder recorded through guarded hooks and validated "
+         "by the TLA+ trace specification TraceMtEncoder",
+         "TLC explores every interleaving of main thread, <= 2 workers and an arbitrary application (RUN / FULL_FLUSH / "
+         "FULL_BARRIER / FINISH, slicing, output space, lzma_get_progress, early lzma_end) in 8 configurations (worker failure, "
+         "timeout, spurious wake-ups, 1 thread, block_size 1 and 2) and checks ordered output, Blocks partitioning the input only "
+         "at block_size / requested offsets, flush / barrier / finish completion conditions, truthful monotone progress, no "
+         "premature BUF_ERROR, deadlock freedom. Bound to the code by trace validation of real runs under TSan with schedule "
+         "perturbation, and by decoding / boundary / determinism checks of the produced Streams.",
+         "Trusted: TLC, TSan (only executed interleavings), atomic critical sections, hooks, mt_drv.c. The incompressible-data "
+         "fallback path and threads_stop(wait) at re-initialisation are model-only / not modelled respectively.",
+         "§4 C08"),
 }
 NA_REASON = "check not built yet in this round (planned: see DESIGN.md §4); no claim is made"
 def main():
